@@ -464,6 +464,8 @@ class MachO(BinFormat):
         addr = fbaseaddr
         F = []
         if fs is not None:
+            if addr is None:
+                raise MachOError("function starts without a base segment")
             self.__file.seek(fs.dataoff)
             data = self.__file.read(fs.datasize)
             p = 0
@@ -471,6 +473,8 @@ class MachO(BinFormat):
                 delta, shift = 0, 0
                 more = True
                 while more:
+                    if p >= len(data):
+                        raise MachOError("truncated function starts table")
                     b = data[p]
                     p += 1
                     delta |= (b & 0x7F) << shift
@@ -705,7 +709,7 @@ with Consts("mh.flags"):
     MH_NO_HEAP_EXECUTION = 0x1000000
 
 # ------------------------------------------------------------------------------
-def token_cmd_fmt(k, val, cls=None):
+def token_cmd_fmt(k, val, cls=None, fmt=None):
     s = []
     if val & LC_REQ_DYLD:
         s.append(highlight([(Token.Name, "LC_REQ_DYLD")]))
@@ -1229,6 +1233,14 @@ class struct_thread_command(MachoFormatter):
             self.data = data[offset : offset + self.cmdsize - 16]
 
     def getstate(self, cputype):
+        try:
+            return self._getstate(cputype)
+        except (AttributeError, KeyError, TypeError):
+            # unknown flavor for this cpu, or a thread state shorter than
+            # its structure:
+            raise MachOError("bad thread state in load command")
+
+    def _getstate(self, cputype):
         if cputype in (X86, X86_64):
             self.alt = "lc.x86"
             if self.flavor == x86_THREAD_STATE32:
